@@ -361,7 +361,9 @@ func runCheck(prop, tier, repo string, overlay map[string][]byte, writeEvidence 
 		}
 		ev.Violations = len(out.violations)
 	}
-	if writeEvidence {
+	// GOVC_NO_EVIDENCE: runs against a deliberately broken tree (seedcheck.sh) must not overwrite the evidence
+	// of the unchanged tree
+	if writeEvidence && os.Getenv("GOVC_NO_EVIDENCE") == "" {
 		os.MkdirAll(filepath.Join(root, "evidence"), 0o755)
 		data, _ := json.MarshalIndent(ev, "", " ")
 		os.WriteFile(filepath.Join(root, "evidence", prop+".json"), data, 0o644)
